@@ -77,10 +77,25 @@ def gen_cases(ctx):
     return cases
 
 
+class Unit(str):
+    """a scalar whose type is a proper subclass of str (like enum.StrEnum members): still a scalar"""
+
+
 def value_of(shape, name=None, df=None):
     if shape == "scalar":
-        # a string longer than NumPy's inline small-string size for two of the names
-        return "long string scalar 0123456789" if name in ("w", "y") else 7
+        # a string longer than NumPy's inline small-string size for two of the names; scalars whose type is a
+        # subclass of a builtin scalar type (str subclass, StrEnum member, bool, np.float32, datetime.date)
+        if name in ("w", "y"):
+            return "long string scalar 0123456789"
+        if name == "x":
+            return Unit("kWh")
+        if name == "z":
+            import enum
+            return enum.StrEnum("Color", {"RED": "red"}).RED
+        if name == "_q":
+            import datetime
+            return datetime.date(2020, 1, 2)
+        return 7
     if shape == "nd":
         # not one-dimensional.  For names "x" / "z" and a frame with rows: a two-dimensional *view of a
         # column* with as many elements as the frame has rows (reshape / [:, None] keep the column class),
